@@ -40,6 +40,9 @@ def scenarios(tier):
     # process creation fails once (the retry inside spawn_process must make up for it) at the j-th attempt
     for j in ((4, 5) if tier == 'quick' else (4, 5, 6, 7)):
         out.append(Scenario('hist', n0=2, singleton=False, w=0.0, pat='obedient', max_age=0, tier=tier, fault=j))
+    # an after_spawn hook that rejects the k-th worker (k-th call overall): replacement spawns of a reload included
+    for k in ((3, 4) if tier == 'quick' else (3, 4, 5)):
+        out.append(Scenario('hist', n0=2, singleton=False, w=0.0, pat='slow', max_age=0, tier=tier, reject=k))
     # dense periodic checks (0.3 s): a kill's 0.1 s polling loop and the slow workers' deaths straddle check ticks
     out.append(Scenario('hist', n0=2, singleton=False, w=0.0, pat='slow', max_age=0, tier=tier, tick=0.3))
     return out
@@ -96,6 +99,14 @@ def run(scn, ch):
 
     def make_world(ch):
         opts = dict(graceful_timeout=G, warmup_delay=scn.w, singleton=scn.singleton)
+        hook_world = []
+        if scn.p.get('reject'):
+            from props.common import nth_hook
+
+            class _W(object):
+                hook_calls = []
+            opts['hooks'] = {'after_spawn': (nth_hook(_W, scn.p['reject'], False), False)}
+            hook_world.append(_W)
         if scn.max_age:
             opts.update(max_age=scn.max_age, max_age_variance=1)
         # 'z' is a bystander watcher: state hoisted to a shared scope would show up as a disturbance of z
@@ -103,6 +114,8 @@ def run(scn, ch):
                            WSpec('z', numprocesses=1, graceful_timeout=G)],
                       check_delay=scn.p.get('tick', 1.0))
         world.deaths_only = ('a',)
+        for hw in hook_world:
+            world.hook_counters = hw.hook_counters
         if scn.p.get('fault'):
             j = scn.p['fault']
             world.kernel.popen_fault = lambda k, attempt, info: OSError(11, 'EAGAIN') if attempt == j else None
@@ -156,7 +169,8 @@ def run(scn, ch):
                     site = 'watcher._restart' if 'restart' in lab or 'terminate' in lab else 'watcher._reload'
                     repl_died = [p.pid for p in world.procs_of('a') if p.spawn_time >= rq.t - 1e-9 and
                                  p.death_time is not None and p.death_time <= world.window_end and
-                                 not any(s in (9, 15) and via != 'os.kill' for (_, s, via) in p.signals)]
+                                 (getattr(p, 'death_cause', None) in ('external', 'self') or
+                                  not any(s in (9, 15) and via != 'os.kill' for (_, s, via) in p.signals))]
                     if old and repl_died and site == 'watcher._reload':
                         site = 'watcher._reload/replacement-died-by-itself'
                     res.check('C01.generation', not old,
